@@ -325,6 +325,12 @@ def check_from_chords_tuned(ctx, case):
     for e in track.get_notes():
         if e[2] is not None:
             ctx.check(1 <= len(e[2]) <= 6, "from_chords/tuned-too-many-notes", lambda: repr(e[2]))
+    # every placed chord is an entry of its own: raising the whole track by a semitone raises each entry exactly once
+    before = [None if e[2] is None else sorted(int(n) for n in e[2]) for e in track.get_notes()]
+    if not failed(ctx.ok("augment", track.augment)):
+        after = [None if e[2] is None else sorted(int(n) for n in e[2]) for e in track.get_notes()]
+        ctx.check(after == [None if b is None else [p + 1 for p in b] for b in before], "from_chords/tuned-entries-share-notes",
+                  lambda: "chords %r: pitches %r, after augmenting the track %r" % (chordlist, before, after))
     ctx.note_case(True, ["from_chords:tuned"])
 
 
@@ -403,6 +409,16 @@ def check_composition(ctx, case):
         ctx.check(len(comp) == len(tracks) and len(comp.tracks) == len(tracks), "composition/len", where)
         for i, t in enumerate(tracks):
             ctx.check(comp[i] is t, "composition/indexing", where)
+    # what reached several tracks belongs to each of them separately: changing one track's notes leaves the other tracks alone
+    # (asserted for notes given as text; a Note / NoteContainer object handed in by the caller is the caller's own object and
+    # may legitimately sit in several tracks)
+    handed_in = any(op[0] in ("add_note", "plus_note") and op[1] in ("note", "listnote", "nc") for op in ops)
+    for i, t in enumerate(tracks if not handed_in else []):
+        others = [mg.track_snapshot(x) for j, x in enumerate(tracks) if j != i]
+        ctx.ok("augment", t.augment)
+        now = [mg.track_snapshot(x) for j, x in enumerate(tracks) if j != i]
+        ctx.check(now == others, "composition/tracks-share-notes",
+                  lambda: "augmenting track %d changed another track: %r -> %r" % (i, others, now))
     ctx.check(comp == comp, "composition/equals-itself", "")
     if tracks:
         other = Composition()
